@@ -43,6 +43,35 @@ func (v ValidatorSet) Equal(other ValidatorSet) bool {
 		ValidatorSlicesEqual(v.Validators, other.Validators)
 }
 
+// MatchesHashes reports whether the validators and public keys listed in v
+// are consistent with each other and hash, under hs, to v's PubKeyHash and VotePowerHash.
+//
+// Block hashes and proposal signatures cover only the two hashes,
+// so a validator set received from a peer must pass this check
+// before its Validators or PubKeys are used for anything.
+func (v ValidatorSet) MatchesHashes(hs HashScheme) bool {
+	if len(v.Validators) == 0 || len(v.PubKeys) != len(v.Validators) {
+		return false
+	}
+	for i, val := range v.Validators {
+		if val.PubKey == nil || v.PubKeys[i] == nil || !val.PubKey.Equal(v.PubKeys[i]) {
+			return false
+		}
+	}
+
+	keyHash, err := hs.PubKeys(v.PubKeys)
+	if err != nil || !bytes.Equal(keyHash, v.PubKeyHash) {
+		return false
+	}
+
+	powHash, err := hs.VotePowers(ValidatorsToVotePowers(v.Validators))
+	if err != nil || !bytes.Equal(powHash, v.VotePowerHash) {
+		return false
+	}
+
+	return true
+}
+
 // NewValidatorSet returns a ValidatorSet based on vs,
 // with hashes calculated using hs.
 //
